@@ -1,6 +1,6 @@
 (* C12: model, specification and oracle for event listeners.
    case: (project events-ts-opt index-ts-opt)
-   project: ((file ...) has-command)   file: (fn ...)   fn: ((param ...) (stmt ...))
+   project: ((file ...) has-command ((rust-name ts-target) ...))   file: (fn ...)   fn: ((param ...) (stmt ...))
    param: (name-opt qty)   qty: (path (seg ..) name angle (arg ..)) | (ref t) | (tuple (t ..))
    expr: (method recv m (arg ..)) | (path (seg ..)) | (field base name) | (lit kind [value]) | (struct (seg ..))
        | (ref e) | (call f (arg ..)) | (tuple (e ..)) | (block (s ..)) | (if (s ..) else-opt) | (match (arm ..))
@@ -66,7 +66,7 @@ let fn_ s : M.fndef =
 
 let project_ s : M.project =
   match list s with
-  | [files; has] -> { M.p_files = list_ (list_ fn_) files; M.p_has_command = bool_ has }
+  | [files; has; maps] -> { M.p_files = list_ (list_ fn_) files; M.p_has_command = bool_ has; M.p_mappings = list_ (pair_ str_ str_) maps }
   | _ -> failwith "c12: bad project"
 
 let rec of_sx = function M.SA s -> Atom (implode s) | M.SL l -> List (List.map of_sx l)
